@@ -16,25 +16,25 @@ open _root_.C12
     filterer under all 64 combinations (with and without a project git config); the built-in defaults go exactly with
     `--no-default-ignore` / `--ignore-nothing` -/
 theorem explicit_options_always_reach_the_filterer : ∀ a b c d e g gc : Bool,
-    let o := configure ⟨true, gc⟩ ⟨a, b, c, d, e, g⟩
+    let o := configure ⟨true, gc, true⟩ ⟨a, b, c, d, e, g⟩
     explicitHonoured o.igfiles = true ∧ o.ignorePatterns = true ∧ o.filters = true ∧ o.exts = true ∧ o.fsEvents = true ∧
     o.defaultIgnores = !(d || g) := c12_explicit_all
 
 /-- **exact removal**: a discovered source reaches the filterer iff no set flag names it -/
 theorem flags_remove_exactly_what_they_name : ∀ a b c d e g : Bool, ∀ s ∈ discovered,
-    (assemble ⟨true, false⟩ ⟨a, b, c, d, e, g⟩).contains s = !removedBy ⟨a, b, c, d, e, g⟩ s := c12_exact
+    (assemble ⟨true, false, true⟩ ⟨a, b, c, d, e, g⟩).contains s = !removedBy ⟨a, b, c, d, e, g⟩ s := c12_exact
 
 /-- the same with a project-level `core.excludesFile`: it is removed exactly by the flags naming it, and it replaces the
     global git excludes whenever the project's git config is read -/
 theorem with_project_git_config : ∀ a b c d e g : Bool,
     let f : Flags := ⟨a, b, c, d, e, g⟩
-    let l := assemble ⟨true, true⟩ f
+    let l := assemble ⟨true, true, true⟩ f
     l.contains .gitConfigExcludes = !removedBy f .gitConfigExcludes ∧
     l.contains .globalVcs = (!removedBy f .globalVcs && f.norm.noProject) ∧
     (∀ s ∈ [Src.projectVcs, .projectPlain, .globalPlain], l.contains s = !removedBy f s) := c12_exact_gitcfg
 
 /-- kernel-checked count kept from before the repair of F9: the explicit file was lost in 52 of 64 combinations; now in none -/
-theorem explicit_file_lost_before_repair_only : lost {} = 52 ∧ lost ⟨true, false⟩ = 0 ∧ lost ⟨true, true⟩ = 0 :=
+theorem explicit_file_lost_before_repair_only : lost {} = 52 ∧ lost ⟨true, false, true⟩ = 0 ∧ lost ⟨true, true, true⟩ = 0 :=
   ⟨c12_today_52, c12_fixed_0.1, c12_fixed_0.2⟩
 
 end Props.C12
